@@ -13,6 +13,8 @@ mod directory;
 #[cfg(feature = "internals")]
 mod execstack;
 #[cfg(feature = "internals")]
+mod varint;
+#[cfg(feature = "internals")]
 mod layout;
 #[cfg(feature = "internals")]
 mod rledec;
@@ -40,6 +42,8 @@ fn main() {
         #[cfg(feature = "internals")]
         "directory" => directory::main(rest),
         "sched" => sched::main(rest),
+        #[cfg(feature = "internals")]
+        "varint" => varint::main(rest),
         "cancel" => sched::cancel_main(rest),
         #[cfg(feature = "internals")]
         "tasktrace" => sched::tasktrace_main(rest),
